@@ -13,7 +13,7 @@ What it does (DESIGN.md §6 C11):
   3. operation lines: corpus/C11.txt, the `c11.*` lines of tools/gen/c11.py (out-of-domain probes of the
      option/result-returning APIs, zero-limb boxed values, mixed precisions, ...), and the op lines of
      EVERY other property's generator (tools/gen/cXX.py + corpus/CXX.txt; quick: deterministic
-     stratified subsample per op name, thorough: all lines);
+     stratified subsample per op name; thorough: all lines);
   4. every line runs under catch_unwind in both harness profiles, with a watchdog (a chunk that does
      not finish is bisected down to the line that hangs = "loops forever"), and in the Lean model driver;
   5. C11 compares ONLY the panic class: the documented expectation of a line is the model's L0 column
@@ -39,8 +39,10 @@ FOREIGN = ['C02', 'C03', 'C04', 'C05', 'C06', 'C07', 'C08', 'C09', 'C10', 'C12',
            'C17', 'C18', 'C19', 'C20']
 # quick tier: cap of lines per foreign property (stratified by op name); the model driver is the
 # bottleneck (harness ≈ 10^5 lines/s, model 3·10^2 – 5·10^4 lines/s depending on the property)
-QUICK_CAP = {'C02': 8000, 'C03': 8000, 'C09': 2000, 'C10': 2000, 'C08': 3500}
-QUICK_CAP_DEFAULT = 25000
+QUICK_CAP = {'C02': 4000, 'C03': 4000, 'C09': 800, 'C10': 800, 'C08': 1500, 'C17': 6000}
+QUICK_CAP_DEFAULT = 10000
+# thorough tier: every line of the other properties' thorough generators (~10^7 lines); VERIF_C11_CAP=<n>
+# caps each foreign property at n lines (stratified) for a faster deep run
 CHUNK = 1500              # lines per subprocess
 CHUNK_TIMEOUT = 60.0      # watchdog per chunk (seconds); a single line gets LINE_TIMEOUT
 LINE_TIMEOUT = 20.0
@@ -64,16 +66,19 @@ def _run_once(cmd, lines, timeout):
 
 def run_robust(cmd, lines, timeout=CHUNK_TIMEOUT):
     """outputs for `lines`; a line on which the process dies yields `crash`, one on which it does not
-    return within the watchdog yields `timeout` (found by bisection: the harness buffers its output, so
-    the output of a killed process cannot be trusted to locate the line)."""
+    return within the watchdog yields `timeout`.  The harness buffers its output, so the output of a
+    killed process cannot be trusted to locate the line: a failed chunk is split 16 ways (each piece
+    gets LINE_TIMEOUT) until the failing lines stand alone."""
     got, why = _run_once(cmd, lines, timeout)
     if got is not None:
         return got
     if len(lines) == 1:
         return [why]
-    mid = len(lines) // 2
-    t = max(LINE_TIMEOUT, timeout / 2)
-    return run_robust(cmd, lines[:mid], t) + run_robust(cmd, lines[mid:], t)
+    size = max(1, (len(lines) + 15) // 16)
+    out = []
+    for k in range(0, len(lines), size):
+        out += run_robust(cmd, lines[k:k + size], LINE_TIMEOUT)
+    return out
 
 
 def run_all(cmd, lines, jobs):
@@ -133,6 +138,8 @@ def foreign_lines(pid, tier, seed, notes):
     total = len(cor) + len(gen)
     if tier == 'quick':
         gen = stratified(gen, QUICK_CAP.get(pid, QUICK_CAP_DEFAULT))
+    elif os.environ.get('VERIF_C11_CAP'):
+        gen = stratified(gen, int(os.environ['VERIF_C11_CAP']))
     seen = set()
     out = []
     for l in cor + gen:
